@@ -68,9 +68,11 @@ def main():
                 if is_set:
                     op = rng.choice(['insert', 'insert', 'insert', 'setitem', 'delitem', 'delitem', 'discard',
                                      'popitem', 'contains', 'len', 'bool', 'ior', 'isub', 'iand', 'ixor',
-                                     'update', 'clear', 'badwrite', 'badcontains'])
+                                     'update', 'clear', 'badwrite', 'badcontains', 'badremove', 'baddiscard'])
                     if op == 'clear' and rng.random() < 0.7:
                         op = 'insert'
+                    if op == 'badremove' and fam[0] == 'O' and len(t) == 0:
+                        op = 'baddiscard'     # (an empty object-keyed C container answers KeyError: finding D38, C09)
                     if op == 'insert':
                         res = ['v', int(t.add(rk))]
                     elif op == 'setitem':
@@ -133,10 +135,14 @@ def main():
                         t.add(api.bad_key(fam)); res = ['ok']
                     elif op == 'badcontains':
                         res = ['v', 1 if (api.bad_key(fam) in t) else 0]
+                    elif op == 'badremove':
+                        t.remove(api.bad_key(fam)); res = ['ok']
+                    elif op == 'baddiscard':
+                        t.discard(api.bad_key(fam)); res = ['ok']
                 else:
                     op = rng.choice(['setitem', 'setitem', 'setitem', 'insert', 'setdefault', 'delitem', 'delitem',
                                      'pop', 'popdefault', 'popitem', 'get', 'getitem', 'contains', 'len', 'bool',
-                                     'update', 'clear', 'badwrite', 'badget', 'badgetitem', 'badcontains'])
+                                     'update', 'clear', 'badwrite', 'badget', 'badgetitem', 'badcontains', 'badpop', 'badpopdefault'])
                     if op == 'clear' and rng.random() < 0.7:
                         op = 'setitem'
                     if op == 'insert' and not hasattr(t, 'insert'):
@@ -196,6 +202,10 @@ def main():
                         res = ['v', emb.rv(t[api.bad_key(fam)])]
                     elif op == 'badcontains':
                         res = ['v', 1 if (api.bad_key(fam) in t) else 0]
+                    elif op == 'badpop':
+                        t.pop(api.bad_key(fam)); res = ['ok']
+                    elif op == 'badpopdefault':
+                        t.pop(api.bad_key(fam), None); res = ['ok']
             except KeyError:
                 res = ['KeyError']
             except TypeError:
